@@ -5,6 +5,7 @@
   see fixes/D17, D25, D26).  Spec: ASV/Spec/Grammar.lean.
 -/
 import ASV.Proofs.Parser.Main
+import ASV.Proofs.Parser.Grammar
 namespace ASV.C02
 open ASV ASV.Rules ASV.Parser ASV.Grammar
 
@@ -69,6 +70,61 @@ theorem conditions_accepts_only_grammar (fuel : Nat) (allowCds isGroup : Bool) (
       shapeOks allowCds cs = true ∧ noRepeats cs = true ∧ cs ≠ [] ∧ endCheck isGroup s' = .ok () := by
   obtain ⟨new, a, k, g, ne, e⟩ := (blockPost fuel).conds _ _ _ _ _ h
   exact ⟨new, a.consumed, k, g.shape, g.norep, ne, e⟩
+
+/-! ### precedence and grouping (thm 2, 3): for every syntax tree of the documented grammar — any
+    nesting depth, any mix of operators — its token rendering is parsed into the condition
+    objects that tree denotes, and their C01 meaning is the grammar's denotation. -/
+
+/-- thm 2 (`parse_pp`), key level: *any* token string (whatever the spelling of its numbers or the
+    provenance of its tokens) whose keys are the flattening of a well-shaped, repeat-free operand
+    list `L` is parsed into exactly `L`, consuming exactly that string; `k` is what follows
+    (not starting with `and`/`or`, and a legal place for the section to end). -/
+theorem parse_keys (allowCds isGroup : Bool) (L : List Cond) (fuel : Nat) (w k consumed : List Tok)
+    (rules : List Rule) (ne : L ≠ []) (hs : shapeOks allowCds L = true) (hr : noRepeats L = true)
+    (hw : w.map Tok.key = flatJoin .orOp L) (hk : NotBinop k)
+    (hend : ∀ c r, endCheck isGroup (ofStream k c r) = .ok ()) (hf : 3 * w.length + 2 ≤ fuel) :
+    parseConditions fuel allowCds isGroup (ofStream (w ++ k) consumed rules) =
+      .ok (L, ofStream k (w.reverse ++ consumed) rules) :=
+  parseConditions_complete allowCds isGroup L fuel w k consumed rules ne hs hr hw hk hend hf
+
+/-- thm 2 (`parse_pp`) for the stratified grammar of the spec: `not` > `and` > `or`,
+    parentheses and `cds(...)` group, at every depth -/
+theorem parse_pp (t : OrE) (ht : okTop t = true) (fuel : Nat) (k consumed : List Tok) (rules : List Rule)
+    (hk : NotBinop k) (hend : ∀ c r, endCheck false (ofStream k c r) = .ok ())
+    (hf : 3 * (ppOr t).length + 2 ≤ fuel) :
+    parseConditions fuel true false (ofStream (ppOr t ++ k) consumed rules) =
+      .ok (shapeOr t, ofStream k ((ppOr t).reverse ++ consumed) rules) := by
+  simp only [okTop, Bool.and_eq_true] at ht
+  have g := okOr_goods false t ht.1.1 ht.1.2
+  exact parseConditions_complete true false (shapeOr t) fuel (ppOr t) k consumed rules (shapeOr_ne_nil t)
+    g.shape g.norep (ppOr_keys t) hk hend hf
+
+/-- thm 3 (`sem_shape`): the documented (C01) meaning of the parsed objects is the denotation of
+    the syntax tree: OR of ANDs of possibly negated atoms -/
+theorem sem_shape (e : Env) (g : Gene) (t : OrE) : sem e g (shapeTop t) = denOr e g t := by
+  simp [shapeTop, sem, semAny_shapeOr]
+
+/-- both directions together: a token string is accepted as CONDITIONS with result `L` only if
+    it is the flattening of `L` (`conditions_accepts_only_grammar`), and the flattening of every
+    legal `L` is accepted with result `L` (`parse_keys`) — so the parser is a bijection between
+    accepted key strings and legal operand lists; in particular the flattening is injective:
+    no second reading of a text exists. -/
+theorem reading_unique (allowCds : Bool) (L L' : List Cond) (fuel : Nat) (w : List Tok)
+    (ne : L ≠ []) (hs : shapeOks allowCds L = true) (hr : noRepeats L = true)
+    (hw : w.map Tok.key = flatJoin .orOp L) (hf : 3 * w.length + 2 ≤ fuel)
+    (s' : PS) (h : parseConditions fuel allowCds false (ofStream w [] []) = .ok (L', s')) : L' = L := by
+  have := parse_keys allowCds false L fuel w [] [] [] ne hs hr hw (by simp [NotBinop])
+    (by intro c r; simp [endCheck, ofStream]) hf
+  simp only [List.append_nil] at this
+  rw [this] at h
+  cases h; rfl
+
+/-- `a or b and not c` is `a or (b and (not c))`; `(a or b) and c` keeps its group -/
+example : shapeOr (.or (.one (.id false "a")) (.one (.and (.id false "b") (.one (.id true "c"))))) =
+    [.single false "a", .conj [.single false "b", .single true "c"]] := by
+  simp [shapeOr, shapeAnd, shapeAtoms, shapeAtom]
+example : okTop (.or (.one (.id false "a")) (.one (.and (.id false "b") (.one (.id true "c"))))) = true := by
+  decide +kernel
 
 /-! ### non-vacuity: each listed class of ill-formed input on a concrete text -/
 
